@@ -575,6 +575,7 @@ func (c16) Plan(tier string) []fw.Unit {
 	us = append(us, fw.Unit{Check: "C16", Kind: "typed-keys", Tier: tier, Spec: fw.Spec(enumSpec{})})
 	us = append(us, fw.Unit{Check: "C16", Kind: "multi-join", Tier: tier, Spec: fw.Spec(enumSpec{})})
 	us = append(us, fw.Unit{Check: "C16", Kind: "same-print", Tier: tier, Spec: fw.Spec(enumSpec{})})
+	us = append(us, fw.Unit{Check: "C16", Kind: "reload", Tier: tier, Spec: fw.Spec(enumSpec{})})
 	return us
 }
 
@@ -596,6 +597,9 @@ func (c16) Run(u fw.Unit) fw.Result {
 	}
 	if u.Kind == "multi-join" {
 		return c16MultiJoin()
+	}
+	if u.Kind == "reload" {
+		return c16Reload()
 	}
 	if u.Kind == "same-print" {
 		return c16SamePrint()
